@@ -581,6 +581,30 @@ pub fn c08(cx: &mut Ctx) {
             }
         }
     }
+    // close-delimited whatever the two sides say about keeping the connection: request HTTP/1.0 or 1.1 with
+    // `Connection: keep-alive`, response HTTP/1.0 or 1.1 with `Connection: keep-alive` — a body that only the close
+    // ends still marks the connection
+    for reqv in ["HTTP/1.0", "HTTP/1.1"] {
+        for reqka in [false, true] {
+            for head in ["HTTP/1.0 200 OK\r\nConnection: keep-alive\r\n\r\n", "HTTP/1.1 200 OK\r\nConnection: keep-alive\r\n\r\n", "HTTP/1.0 200 OK\r\nConnection: Keep-Alive\r\nKeep-Alive: timeout=5\r\n\r\n", "HTTP/1.1 200 OK\r\n\r\n"] {
+                cx.case("closeka");
+                let hs: Vec<(&str, &[u8])> = if reqka { vec![("connection", b"keep-alive")] } else { vec![] };
+                cx.rec.new_flow(&format!("GET {} http://a.test/p {}", reqv, super::hdrs(&hs)));
+                cx.op("proceed"); cx.op("write 4096"); cx.op("proceed");
+                cx.op(&format!("resp {}", hx(head.as_bytes())));
+                cx.op("proceed");
+                if cx.rec.state() != "recvBody" { continue; }
+                cx.meta("close");
+                cx.op("mode");
+                cx.op("canproceed");
+                cx.op(&format!("bread {} 100", hx(b"some bytes")));
+                cx.op("canproceed");
+                cx.op("proceed");
+                cx.op("close?");
+                cx.op("reason");
+            }
+        }
+    }
     // random length-delimited
     let cnt = if cx.thorough { 3000 } else { 300 };
     for _ in 0..cnt {
